@@ -45,6 +45,21 @@ def gen_semspec(rng, g):
     return (default, methods)
 
 
+def targeted_semspec(rng, g):
+    """like gen_semspec, but the rejecting / raising predicates are aimed at strings the rule can actually return"""
+    default, methods = gen_semspec(rng, g)
+    for n, _, e in g['rules']:
+        toks = [x[1] for x in E.walk(e) if E.kind(x) == 'tok']
+        if n.startswith('_') or not toks or E.kind(e) not in ('tok', 'choice'):
+            continue
+        r = rng.random()
+        if r < 0.45:
+            methods[n] = ('failif', rng.choice(toks))
+        elif r < 0.6:
+            methods[n] = ('raiseif', rng.choice(toks), rng.choice(RAISE))
+    return (default, methods)
+
+
 def simple_rule_grammar(rng):
     """grammars where rule values are often plain strings so that failif/raiseif predicates fire"""
     g = G.gen_grammar(rng, G.GenCfg(names=0.05, overrides=0.02, max_rules=4), depth=rng.choice([2, 3]))
@@ -129,7 +144,7 @@ def shard(col, shard_i, ngrammars, ninputs):
         g = simple_rule_grammar(rng)
         texts = [t[:40] for t in G.gen_inputs(rng, g, ninputs)]
         for k in range(3):
-            spec = gen_semspec(rng, g)
+            spec = gen_semspec(rng, g) if k < 2 else targeted_semspec(rng, g)
             col.count('sem.default.' + (spec[0] if isinstance(spec[0], str) else spec[0][0]))
             for t in texts:
                 cases.append(R.Case(g, t, None, E.Settings(), spec))
